@@ -107,6 +107,29 @@ fn check_one(report: &mut Report, ip: IpAddr, info: &dyn Fn() -> J) -> u8 {
 
 const V4_SHARDS: u64 = 64;
 
+/// IANA IPv6 special-purpose blocks as (high 64 bits, low 64 bits, prefix length).
+const SPECIAL_V6: &[(u64, u64, u32)] = &[
+    (0, 0x0000_ffff_0000_0000, 96),            // ::ffff:0:0/96   IPv4-mapped
+    (0, 0, 96),                                // ::/96           IPv4-compatible (deprecated)
+    (0, 0xffff_0000_0000_0000, 96),            // ::ffff:0:0:0/96 IPv4-translated (SIIT)
+    (0x0064_ff9b_0000_0000, 0, 96),            // 64:ff9b::/96    NAT64
+    (0x0064_ff9b_0001_0000, 0, 48),            // 64:ff9b:1::/48  local-use NAT64
+    (0x0100_0000_0000_0000, 0, 64),            // 100::/64        discard-only
+    (0x2001_0000_0000_0000, 0, 32),            // 2001::/32       Teredo
+    (0x2001_0db8_0000_0000, 0, 32),            // 2001:db8::/32   documentation
+    (0x2002_0000_0000_0000, 0, 16),            // 2002::/16       6to4
+    (0xfc00_0000_0000_0000, 0, 7),             // fc00::/7        unique local
+    (0xfe80_0000_0000_0000, 0, 10),            // fe80::/10       link-local
+    (0xfec0_0000_0000_0000, 0, 10),            // fec0::/10       site-local (deprecated)
+    (0xff00_0000_0000_0000, 0, 8),             // ff00::/8        multicast
+    (0, 0, 127),                               // ::/127          unspecified / loopback
+];
+
+fn prefix_mask(bits: u32) -> (u64, u64) {
+    let m: u128 = if bits == 0 { 0 } else { !0u128 << (128 - bits) };
+    ((m >> 64) as u64, m as u64)
+}
+
 fn v4_stream(ctx: &Ctx, idx: u64) -> Report {
     let mut report = Report::default();
     if let Err(e) = oracle_self_test() {
@@ -168,7 +191,18 @@ fn v6_stream(ctx: &Ctx, idx: u64) -> Report {
             3 => rng.gen::<u64>() | 0x0103_070f_1f3f_7fff,
             _ => rng.gen(),
         };
-        let lo: u64 = rng.gen();
+        let mut lo: u64 = rng.gen();
+        let mut hi = hi;
+        if i % 8 == 4 {
+            // IANA special-purpose blocks (address forms a dual-stack or translating host really
+            // sees): the block prefix, the remaining bits random. The ones with an embedded IPv4
+            // address get a random IPv4 address in the low 32 bits.
+            let (p_hi, p_lo, bits): (u64, u64, u32) = SPECIAL_V6[rng.gen_range(0..SPECIAL_V6.len())];
+            let (m_hi, m_lo) = prefix_mask(bits);
+            hi = (p_hi & m_hi) | (hi & !m_hi);
+            lo = (p_lo & m_lo) | (lo & !m_lo);
+            report.count("v6_special_purpose_block_addresses");
+        }
         let mut o = [0u8; 16];
         o[..8].copy_from_slice(&hi.to_be_bytes());
         o[8..].copy_from_slice(&lo.to_be_bytes());
@@ -209,7 +243,8 @@ pub fn check(tier: Tier) -> Check {
         level: "exploration",
         rule: "IPv4: every one of the 2^20 combinations of mask-relevant address bits (0x030f3fff), \
                remaining bits random, 8 (quick) / 64 (thorough) calls each; IPv6: random and \
-               structured /64 prefixes. A case is (masked address, r) where r is the 3 random bits \
+               structured /64 prefixes, plus addresses inside the 14 IANA special-purpose blocks \
+               (IPv4-mapped, IPv4-compatible, SIIT, NAT64, Teredo, 6to4, ULA, link-local, multicast ...). A case is (masked address, r) where r is the 3 random bits \
                the implementation drew; distinct_nontrivial counts distinct such pairs observed \
                (IPv6 pairs counted up to 100k per shard).",
         assumptions: vec![
@@ -225,6 +260,7 @@ pub fn check(tier: Tier) -> Check {
             ("v4_classes_covered", 1 << 20),
             ("v4_class_r_pairs_observed", tier.pick(4_000_000, 8_000_000)),
             ("oracle_selftests_passed", V4_SHARDS),
+            ("v6_special_purpose_block_addresses", tier.pick(100_000, 2_000_000)),
         ],
         exhaustive: false,
     }
